@@ -355,7 +355,10 @@ def digit_value_table():
 def model_int(x=0, *a, **k):
     if a or k:
         if is_sym(x) or any(is_sym(y) for y in a):
-            raise Unmodelled("int() with base on symbolic value")
+            base = a[0] if a else k.get("base")
+            if isinstance(base, int) and not isinstance(base, bool) and len(a) + len(k) == 1:
+                return model_int_base(x, base)
+            raise Unmodelled("int() with symbolic base")
         return builtins.int(x, *a, **k)
     if isinstance(x, SymInt):
         return x
@@ -382,18 +385,15 @@ def model_int(x=0, *a, **k):
             if n_pieces == 1:
                 raise ValueError("invalid literal for int() with base 10")
             raise Unmodelled("int() of string with sign/space/underscore characters")
-        if not ctx.choose(in_ranges(q, [[48, 57]])):
-            if ctx.choose(in_ranges(q, dt.ranges)):
-                v = prune_ite(seg_lookup(q, _shift_segs(dt.segs)))
-                items.append((v, z3.IntVal(1), 1, 1))
-                continue
+        if not ctx.choose(in_ranges(q, dt.ranges)):
             if n_pieces == 1:
                 raise ValueError("invalid literal for int() with base 10")
             # in a longer string a non-digit may still be legal (sign, whitespace, underscore)
             if ctx.choose(in_ranges(q, category_ranges(r"\s") + [[43, 43], [45, 45], [95, 95]])):
                 raise Unmodelled("int() of string with sign/space/underscore characters")
             raise ValueError("invalid literal for int() with base 10")
-        items.append((z3.simplify(prune_ite(map_leaves(q, lambda l: l - 48))), z3.IntVal(1), 1, 1))
+        # any decimal digit of Unicode: one merged value term (no fork between ASCII and other digits)
+        items.append((z3.simplify(prune_ite(seg_lookup(q, dt.segs))), z3.IntVal(1), 1, 1))
     if not items:
         raise ValueError("invalid literal for int() with base 10: ''")
     # split at the maximal fixed-width suffix; memoise the (symbolic-width) prefix term
@@ -428,6 +428,33 @@ def model_int(x=0, *a, **k):
         hit = (tv, T, [v for v, _, _, _ in items[:kk]])
         ctx.int_memo[key] = hit
     return mkint(hit[0] * (10**fw) + fixed)
+
+
+_BASE_TABLES = {}
+
+
+def model_int_base(x, base):
+    """int(single symbolic character, base): table scanned from the real int() over all code points"""
+    if isinstance(x, StrBase):
+        x = x._s
+    s = SymStr.of(x)._dense()
+    if len(s.p) != 1:
+        raise Unmodelled("int(str, base) on a symbolic string longer than one character")
+    q = s.p[0]
+    if base not in _BASE_TABLES:
+        t = {}
+        for c in range(0x110000):
+            try:
+                t[c] = builtins.int(chr(c), base)
+            except ValueError:
+                pass
+        _BASE_TABLES[base] = (segments(t), _ranges_of(list(t)))
+    segs, rs = _BASE_TABLES[base]
+    if isinstance(q, int):
+        return builtins.int(chr(q), base)
+    if not ctx.choose(in_ranges(q, rs)):
+        raise ValueError("invalid literal for int() with base")
+    return mkint(prune_ite(seg_lookup(q, segs)))
 
 
 def _shift_segs(segs):
